@@ -67,7 +67,14 @@ fn onion() -> HostName {
 fn address(kind: &str, host: usize, rng: &mut fastrand::Rng) -> Address {
     let host = match kind {
         "ipv4" => HostName::Ip(std::net::IpAddr::V4(std::net::Ipv4Addr::from(rng.u32(..)))),
-        "ipv6" => HostName::Ip(std::net::IpAddr::V6(std::net::Ipv6Addr::from(rng.u128(..)))),
+        // IPv6 addresses include the forms that have an IPv4 reading (mapped, compatible) and loopback:
+        // decoding must keep them as the 16 octets that were sent
+        "ipv6" => HostName::Ip(std::net::IpAddr::V6(match rng.u8(0..6) {
+            0 | 1 => std::net::Ipv6Addr::from((0xffffu128 << 32) | rng.u32(..) as u128),
+            2 => std::net::Ipv6Addr::from(rng.u32(1..) as u128),
+            3 => std::net::Ipv6Addr::LOCALHOST,
+            _ => std::net::Ipv6Addr::from(rng.u128(..)),
+        })),
         "dns" => HostName::Dns("aB".repeat(host).chars().take(host).collect()),
         "onion" => onion(),
         other => fatal(&format!("address kind {other}")),
@@ -249,7 +256,16 @@ fn addr_bytes(kind: u8, rng: &mut fastrand::Rng) -> Vec<u8> {
     let mut b = vec![kind];
     match kind {
         1 => b.extend(rand_bytes(rng, 4)),
-        2 => b.extend(rand_bytes(rng, 16)),
+        2 => {
+            if rng.u8(0..3) == 0 {
+                // IPv4-mapped IPv6
+                b.extend([0u8; 10]);
+                b.extend([0xff, 0xff]);
+                b.extend(rand_bytes(rng, 4));
+            } else {
+                b.extend(rand_bytes(rng, 16));
+            }
+        }
         3 => b.extend(str_bytes(b"Seed.Radicle.XYZ")),
         4 => {
             if let HostName::Tor(a) = onion() {
